@@ -63,6 +63,7 @@ type childPlan struct {
 	Close     bool // close the node cleanly after the workload and exit 0
 	FailAt    int  // the FailAt-th store write returns an error
 	Snap      bool // take a raft snapshot right before the clean stop (nothing is applied after it)
+	BusyClose int  // > 0: propose a bulk of that many events, and call Close(true) while the state machine is applying it; the node runs with RaftApplyTimeout = 50 ms
 	SnapAfter int  // > 0: take a raft snapshot after that many entries of this run and go on inserting (the store is then ahead of the newest snapshot when the process stops or is killed)
 }
 
@@ -129,7 +130,11 @@ func crashChild(arg string) {
 
 // raftChild: a single-node raft cluster adding events until killed (or, in recover mode, reporting its state)
 func raftChild(p childPlan, acks *os.File) {
-	n, _, err := startNode(nodeOpts{id: 0, name: "crash", dir: p.Dir, raftPort: p.Port, bootstrap: true, snapThr: 8192, trailing: 10240})
+	no := nodeOpts{id: 0, name: "crash", dir: p.Dir, raftPort: p.Port, bootstrap: true, snapThr: 8192, trailing: 10240}
+	if p.BusyClose > 0 {
+		no.applyTimeout = 50 * time.Millisecond
+	}
+	n, _, err := startNode(no)
 	if err != nil {
 		fmt.Println("STARTERR", err)
 		os.Exit(3)
@@ -167,6 +172,35 @@ func raftChild(p childPlan, acks *os.File) {
 		if !p.Recover {
 			time.Sleep(3 * time.Millisecond)
 		}
+	}
+	if p.BusyClose > 0 {
+		// a large bulk is proposed; as soon as the state machine has started on it (the version counter moves) the node is closed
+		before := n.VBalloonVersion()
+		var evs [][]byte
+		for j := 0; j < p.BusyClose; j++ {
+			evs = append(evs, []byte(fmt.Sprintf("%s-busy-%d", p.Tag, j)))
+		}
+		done := make(chan struct{})
+		go func() {
+			defer close(done)
+			snaps, err := n.AddBulk(evs)
+			fmt.Println("BUSYBULK", len(snaps), err)
+		}()
+		for w := 0; w < 2000 && n.VBalloonVersion() == before; w++ {
+			time.Sleep(time.Millisecond)
+		}
+		time.Sleep(20 * time.Millisecond)
+		fmt.Println("CLOSING-WHILE-APPLYING", n.VBalloonVersion() != before)
+		if err := n.Close(true); err != nil {
+			fmt.Println("CLOSEERR", err)
+			os.Exit(5)
+		}
+		fmt.Println("CLOSED")
+		select {
+		case <-done:
+		case <-time.After(5 * time.Second):
+		}
+		return
 	}
 	if p.Recover || p.Close {
 		fmt.Println("DONE", n.VBalloonVersion())
